@@ -23,10 +23,16 @@ def fill_k(n):
 
 def noncontiguous(a: np.ndarray) -> np.ndarray:
     """The same logical array, laid out neither C- nor F-contiguously (every second element of a wider buffer)."""
-    big = np.zeros(a.shape[:-1] + (2 * a.shape[-1],), dtype=a.dtype) - 99.0
-    big[..., ::2] = a
-    v = big[..., ::2]
-    assert not v.flags["C_CONTIGUOUS"] or v.size <= 1
+    if a.ndim >= 2:
+        # every second ROW of a taller buffer: the last axis stays dense, the others do not follow from the shape
+        big = np.zeros((2 * a.shape[0],) + a.shape[1:], dtype=a.dtype) - 99.0
+        big[::2] = a
+        v = big[::2]
+    else:
+        big = np.zeros(a.shape[:-1] + (2 * a.shape[-1],), dtype=a.dtype) - 99.0
+        big[..., ::2] = a
+        v = big[..., ::2]
+    assert not v.flags["C_CONTIGUOUS"] or v.size <= 1 or v.shape[0] == 1
     return v
 
 
